@@ -113,7 +113,8 @@ def region_of(c):
     if c['fmt'] == 'lateral_boundary':
         return 0   # (region 1, the writer's end date at a year end, was retired by a9b6e29)
     if c['fmt'] == 'cloud_rain':
-        return 0   # the step count comes from the file size: single-step files are fine
+        # the layout is guessed from the file size: a 3-field file whose size is also a whole number of 5-field steps is misread
+        return 21 if M._cr_ambiguous(c) else 0
     if c['fmt'] == 'wind' and c['nx'] * c['ny'] == 1:
         return 12      # data records as long as the 1-word dummy record: reader cannot delimit the layers
     if len(c['steps']) == 1:
@@ -439,9 +440,32 @@ def is_wind(case):
     return case.get('content', {}).get('fmt') == 'wind' and not case.get('sweep')
 
 
+def is_cr(case):
+    return case.get('content', {}).get('fmt') == 'cloud_rain' and not case.get('sweep')
+
+
 def is_layered(case):
     """formats whose Memmap reader is modelled in Coq through the generic driver run_o3"""
-    return is_o3(case) or is_th(case) or is_wind(case)
+    return is_o3(case) or is_th(case) or is_wind(case) or is_cr(case)
+
+
+def cr_term(case, obs, suffix=''):
+    c = case['content']
+    mm = obs['mm']
+    ok = mm['status'] == 'ok'
+    v, tf = M.coq_cview(c, mm['view'] if ok else None)
+    wr = obs.get('wr') or {}
+    tbl = sorted(set((L.f32_word(float(s['hhmm'])), s['hhmm']) for s in c['steps']))
+    py_ok = True
+    if ok:
+        vw = mm['view']
+        dm = vw['dims']
+        py_ok = all(len(a) == dm.get('TSTEP') and all(len(t) == dm.get('LAY') and all(len(lay) == dm.get('ROW') and all(len(r) == dm.get('COL') for r in lay)
+                                                                                 for lay in t) for t in a) for a in vw['data'].values())
+        py_ok = py_ok and list(vw['data'].keys()) in (M.CR_FIELDS[3], M.CR_FIELDS[5])
+    return '(CD%s (CCase %s %s %s %s %d %s %s %s %s %s %s))' % (
+        suffix, M.coq_cloudrain(c), C.zlist([s['hhmm'] for s in c['steps']]), M.coq_pairs(tbl), C.zlist(M.encode(c)), obs['cut'],
+        C.cbool(ok), v, tf, C.cbool(py_ok), C.cbool(wr.get('status') == 'ok'), C.zlist(wr.get('words') or []))
 
 
 def th_shape_ok(c, view):
@@ -515,6 +539,8 @@ def w_term(case, obs, suffix=''):
 
 
 def layered_term(case, obs, suffix=''):
+    if is_cr(case):
+        return cr_term(case, obs, suffix)
     if is_o3(case):
         return o3_term(case, obs, 'OD' + suffix)
     if is_wind(case):
@@ -523,6 +549,8 @@ def layered_term(case, obs, suffix=''):
 
 
 def layered_py_check(case, obs):
+    if is_cr(case):
+        return []
     if is_wind(case):
         return w_py_check(case, obs)
     return o3_py_check(case, obs) if is_o3(case) else th_py_check(case, obs)
